@@ -7,7 +7,7 @@ import itertools
 from ..cfg import CFG
 from ..facts import Broken, span_loc
 from . import ops
-from .domain import (INT_TYPES, TBIT, BoolV, ClosureV, EnumV, FloatV, FnV, IntV, IterV, OpaqueV, RefV, StrV, StructV, Top,
+from .domain import (INT_TYPES, TBIT, BoolV, ChoiceV, ClosureV, EnumV, FloatV, FnV, IntV, IterV, OpaqueV, RefV, StrV, StructV, Top,
                      TupleV, VecV, bit_is_const, bit_mux, bit_xor, deps_of, fresh_sid, join, join_guard, ty_range)
 
 UNROLL_FUEL = 400
@@ -93,6 +93,7 @@ class Interp:
         self.obligations = []      # dict(site, kind, ok, detail, ctx)
         self.warnings = []         # unmodelled callees etc.
         self.calllog = []          # (callee, args, result) for watched callees
+        self.const_cells = set()
         self.trace_names = None    # callee short names whose call sites are recorded, in execution order, in self.trace
         self.trace = []
         self.watch = set()
@@ -193,6 +194,10 @@ class Interp:
                 v = self.get_path(state, cell, tuple(path))
                 if isinstance(v, RefV):
                     cell, path = v.cell, list(v.proj)
+                elif isinstance(v, ChoiceV) and isinstance(v.one, RefV) and isinstance(v.zero, RefV):
+                    # read through a guarded choice of two references: a temporary holding the guarded choice of the referents
+                    tmp = ChoiceV(v.bit, self.get_path(state, v.one.cell, v.one.proj), self.get_path(state, v.zero.cell, v.zero.proj))
+                    cell, path = self.new_cell(state, tmp), []
                 else:
                     # deref of something that is not a reference (Box / unknown): stay symbolic
                     path.append(("deref",))
@@ -220,6 +225,16 @@ class Interp:
         if v is None:
             return Top(why="read of uninitialised/moved value")
         k = st[0]
+        if isinstance(v, ChoiceV):
+            a, b = self.step_get(state, v.one, st), self.step_get(state, v.zero, st)
+            if isinstance(a, IntV) and isinstance(b, IntV):
+                m = ops.ftab_mux(v.bit, a, b)
+                if m is not None:
+                    return m
+                return join(a, b)
+            if isinstance(a, (RefV, VecV, TupleV, StructV)) or isinstance(b, (RefV, VecV, TupleV, StructV)):
+                return ChoiceV(v.bit, a, b)
+            return join(a, b)
         if isinstance(v, Top):
             return Top(v.deps, v.why or "projection of unknown")
         if k == "field":
@@ -258,6 +273,9 @@ class Interp:
                         return Top(why="index out of range")
                     iv = st[2] if len(st) > 2 else None
                     lt = _linear_table_lookup(v, iv)
+                    if lt is not None:
+                        return lt
+                    lt = _ftab_table_lookup(v, iv)
                     if lt is not None:
                         return lt
                     el = v.elems
@@ -627,8 +645,13 @@ class Interp:
                     elif j is not va:
                         j = va
                     s.heap[c] = j
+            elif c in self.const_cells:
+                s.heap[c] = a.heap[c]
             else:
                 changed = True
+        for c in b.heap:
+            if c not in a.heap and c in self.const_cells:
+                s.heap[c] = b.heap[c]
         kb = {k: v for k, v in a.kb.items() if b.kb.get(k) == v}
         if len(kb) != len(a.kb):
             changed = True
@@ -744,6 +767,10 @@ class Interp:
             if m is not None:
                 return BoolV(None if not bit_is_const(m) else bool(m), None, va.deps | vb.deps, None, m)
             return join(va, vb)
+        if isinstance(va, RefV) and isinstance(vb, RefV) and (va.cell != vb.cell or va.proj != vb.proj) and not va.mut and not vb.mut:
+            c, p = gj
+            if c != TBIT and not bit_is_const(c) and isinstance(c, tuple) and c[0] in ("b", "x"):
+                return ChoiceV(c, va if p == 1 else vb, vb if p == 1 else va)
         if isinstance(va, VecV) and isinstance(vb, VecV) and va.elems is not None and vb.elems is not None and len(va.elems) == len(vb.elems):
             return VecV([self.gjoin(x, y, gj) for x, y in zip(va.elems, vb.elems)], elem_ty=va.elem_ty)
         if isinstance(va, TupleV) and isinstance(vb, TupleV) and len(va.items) == len(vb.items):
@@ -788,6 +815,10 @@ class Interp:
             return FnV(c.get("instance") or c["fn"])
         if "promoted" in c:
             return ("promoted", c["def"], c["promoted"])
+        if "value" in c:
+            v = _structured_const(c["value"])
+            if v is not None:
+                return ("constref", v) if c.get("is_ref") else v
         if "array" in c and c.get("elem_ty") in INT_TYPES:
             ety = c["elem_ty"]
             v = VecV([IntV.const(ety, int(x)) for x in c["array"]], elem_ty=ety)
@@ -804,7 +835,9 @@ class Interp:
             if isinstance(v, tuple) and v[0] == "promoted":
                 return self.eval_promoted(state, v[1], v[2])
             if isinstance(v, tuple) and v[0] == "constref":
-                return RefV(self.new_cell(state, v[1]))
+                cid = self.new_cell(state, v[1])
+                self.const_cells.add(cid)          # immutable data: survives joins even if only one side created it
+                return RefV(cid)
             return v
         pl = op.get("copy") or op.get("move")
         if pl is None:
@@ -837,6 +870,7 @@ class Interp:
                 tgt = self.cell_get(src, v.cell)
                 cid = ("h", next(self._cell))
                 memo[v.cell] = cid
+                self.const_cells.add(cid)          # promoted constants are immutable
                 state.heap[cid] = self.import_value(state, src, tgt, memo)
             return RefV(memo[v.cell], v.proj, v.mut)
         if isinstance(v, TupleV):
@@ -1310,7 +1344,7 @@ class Interp:
                     if d.bits is not None and tv == {0}:
                         nz = [x for x in d.bits if x != 0]
                         if len(nz) == 1 and d.bits[0] == nz[0] and not bit_is_const(nz[0]) and nz[0] != TBIT:
-                            st.guard = (nz[0], True)
+                            st.guard = _norm_guard(nz[0], True)
                     self._arm(st, t["otherwise"])
                     outs.append((t["otherwise"], st))
             return self._merge_same_target(outs)
@@ -1349,11 +1383,13 @@ class Interp:
             k = self._cur
             state.ctl[k] = (state.ctl.get(k, (frozenset(), None))[0] | b.deps, None)
         if b.bit is not None and b.val is None and b.bit != TBIT and not bit_is_const(b.bit):
-            state.guard = (b.bit, bool(truth))
+            state.guard = _norm_guard(b.bit, bool(truth))
         o = b.origin
         neg = False
+        inner = b
         while o is not None and o[0] == "not":
             neg = not neg
+            inner = o[1]
             o = o[1].origin
         if o is not None and o[0] == "cmp" and o[1] in ("Ne", "Eq"):
             a, c = o[2], o[3]
@@ -1371,10 +1407,24 @@ class Interp:
                         cond_true = truth != neg
                         # bit value on this edge
                         val = cond_true == bit_true
-                        state.guard = (nz[0], val)
+                        state.guard = _norm_guard(nz[0], val)
         if b.val is not None:
             return
+        # a false disjunction / a true conjunction: every component holds with that truth value
+        if o is not None and o[0] in ("or", "and") and b.term is None:
+            cond_true = truth != neg
+            if (o[0] == "or" and not cond_true) or (o[0] == "and" and cond_true):
+                g = state.guard
+                for x in o[1]:
+                    if isinstance(x, BoolV) and x.val is None:
+                        self.note_branch(state, x, cond_true)
+                state.guard = g
+            return
         term = b.term
+        if term is None and inner is not b and isinstance(inner, BoolV) and inner.term is not None:
+            # `!p` where p carries a symbolic term (range test, ...): the atom is p with the flipped truth value
+            state.pc = state.pc | {(inner.term, truth != neg)}
+            return
         if term is None and o is not None and o[0] in ("cmp", "fcmp"):
             term = (o[1], _vterm(o[2]), _vterm(o[3]))
         if term is not None:
@@ -1552,6 +1602,53 @@ def taint(v, deps):
     if isinstance(v, TupleV):
         return TupleV([taint(x, deps) for x in v.items])
     return v
+
+
+def _norm_guard(bit, val):
+    """(bit, value) with the complement folded into the value, so that `x == 1` and `!x == 0` are the same guard"""
+    if isinstance(bit, tuple) and bit and bit[0] == "x" and bit[2] == 1:
+        nb = ("b", next(iter(bit[1]))) if len(bit[1]) == 1 else ("x", bit[1], 0)
+        return (nb, not val)
+    return (bit, val)
+
+
+def _structured_const(j):
+    """value of a structured constant dumped by the driver (arrays / tuples of ints, bools, chars, &str)"""
+    if "int" in j:
+        ty = j.get("ty")
+        if ty == "bool":
+            return BoolV(bool(int(j["int"])))
+        if ty in INT_TYPES:
+            return IntV.const(ty, int(j["int"]))
+        return None
+    if "str" in j:
+        return StrV("lit", text=j["str"])
+    if "tuple" in j:
+        items = [_structured_const(x) for x in j["tuple"]]
+        return None if any(x is None for x in items) else TupleV(items)
+    if "arr" in j:
+        items = [_structured_const(x) for x in j["arr"]]
+        return None if any(x is None for x in items) else VecV(items)
+    return None
+
+
+def _ftab_table_lookup(v, iv):
+    """T[idx] for a constant integer table and an index that is an explicit function of a few frame bits: the result is that
+    function composed with the table (exact for any table, linear or not - Gray-code steps, digit tables, ...)"""
+    if not isinstance(iv, IntV) or iv.is_const():
+        return None
+    el = v.elems
+    if not el or not all(isinstance(e, IntV) and e.is_const() for e in el):
+        return None
+    ft = ops.ftab_of(iv)
+    if ft is None:
+        return None
+    vals = []
+    for i in ft[1]:
+        vals.append(el[i].lo if (i is not None and 0 <= i < len(el)) else None)
+    if all(x is None for x in vals):
+        return None
+    return IntV(el[0].ty, None, None, None, None, iv.deps, None, None, None, (ft[0], tuple(vals)))
 
 
 _LIN_CACHE = {}
